@@ -18,14 +18,18 @@ SHARD_SIZE = 100
 RULE = ('byte streams made of 1..7 request lines drawn from a grammar of SECoP requests against a two-module node '
         '(valid, semantically failing, unknown and handler-colliding actions) and mutated at byte level (invalid/overlong/'
         'surrogate UTF-8, broken JSON, missing/extra fields, blanks/tabs/CR before and after, empty lines, lines longer than '
-        'the receive size, deep nesting), last line possibly unterminated; delivered to a real TCPRequestHandler through '
+        'the receive size, deep nesting; pure ASCII lines whose JSON data holds \\uXXXX escapes of lone surrogates, surrogate pairs, '
+        'BMP and non-BMP characters - as values of a UTF-8 string parameter / struct member / command argument, as struct member '
+        'names, in places named by error texts - and the same characters raw in data and specifier), last line possibly '
+        'unterminated; delivered to a real TCPRequestHandler through '
         'scripted recv() segments (random cut points, recv time-outs; exhaustive segmentations of short streams), with other '
         'connections talking to the same dispatcher between two segments; plus direct encode_msg_frame / decode_msg cases. '
         'A stream case is non-trivial when at least one complete line was answered; distinct = distinct (segments, other '
         'connections) resp. distinct codec inputs; a few threaded runs in which a second thread sends events through '
         'send_reply while the fake socket delivers every frame in two halves')
 ASSUMPTIONS = [
-    'json.loads / json.dumps / str(exception) are CPython or message text: supplied to the model as recorded data (json verdict per data string, reply data text, error text)',
+    'json.loads / json.dumps / str(exception) are CPython or message text: supplied to the model as recorded data (json verdict per data string, reply data text = what the json.dumps call inside encode_msg_frame returned, error text cut out of it)',
+    'law of the json.dumps oracle, evaluated on every case by check_case (premise of C07_reply_ascii_data, tied to the source by the fact dumps_ascii_only): the data texts are printable ASCII',
     'the bodies of Dispatcher.handle_<x> are oracles (reply data, messages sent, exception class); their reply action and specifier rule are read off the source by the translator',
     'the fake socket never fails in sendall and honours the recv size; detailed_errors is False; other connections run between two recv() calls of the observed one (socketserver threading, kernel buffers are not covered)',
     'lines counted as replies are those whose action is not an event (update, log, _ comment lines; error_update unless the request action is update)',
@@ -62,7 +66,7 @@ def _setup():
     import frappy.protocol.dispatcher as D
     import frappy.protocol.interface as iface
     import frappy.protocol.interface.tcp as tcp
-    from frappy.datatypes import FloatRange, IntRange, StringType
+    from frappy.datatypes import FloatRange, IntRange, StringType, StructOf
     from frappy.errors import SECoPError
     from frappy.lib import generalConfig
     from frappy.logging import RemoteLogHandler
@@ -88,6 +92,9 @@ def _setup():
         value = Parameter('v', FloatRange(0, 100), default=1.5)
         target = Parameter('t', FloatRange(0, 100), default=2.0)
         txt = Parameter('s', StringType(), default='', readonly=False)
+        utxt = Parameter('u', StringType(isUTF8=True), default='', readonly=False)
+        st = Parameter('st', StructOf(a=IntRange(), b=StringType(isUTF8=True)), default={'a': 0, 'b': ''},
+                       readonly=False)
 
         def read_value(self):
             return self.value
@@ -100,6 +107,11 @@ def _setup():
         def twice(self, n):
             """twice"""
             return 2 * n
+
+        @Command(StringType(isUTF8=True), result=StringType(isUTF8=True))
+        def echo(self, arg):
+            """echo"""
+            return arg
 
     class Srv:
         def __init__(self):
@@ -149,6 +161,8 @@ class Recorder:
         self.in_handler = False
         self.last_triple = None
         self.sends = []          # dicts: to, triple, bytes, cur, line, in_handler
+        self.failed = []         # encode_msg_frame calls that raised: triple, exc, cur, line, in_handler
+        self.last_dumps = None   # text returned by the last json.dumps call of the code under test
         self.json = []           # [text, canon or None] in call order
         self.hcalls = {}         # (conn, line) -> dict
         self.problems = []
@@ -156,10 +170,26 @@ class Recorder:
     # --- patches
     def encode_wrapper(self, real):
         def encode_msg_frame(action, specifier=None, data=None):
-            r = real(action, specifier, data)
-            self.last_triple = [action, specifier, None if data is None else json.dumps(data)]
+            # the data text of the triple is what the json.dumps call INSIDE encode_msg_frame returned (json oracle),
+            # not a dump made by the harness
+            self.last_dumps = None
+            try:
+                r = real(action, specifier, data)
+            except BaseException as e:
+                self.failed.append({'triple': [action, specifier, self.dumped(data)], 'exc': type(e).__name__,
+                                    'cur': self.cur, 'line': self.line.get(self.cur, -1), 'in_handler': self.in_handler})
+                raise
+            self.last_triple = [action, specifier, self.dumped(data)]
             return r
         return encode_msg_frame
+
+    def dumped(self, data):
+        if data is None:
+            return None
+        if self.last_dumps is None:     # encode_msg_frame did not call json.dumps: fail closed (model will disagree)
+            self.problems.append('encode_msg_frame did not call json.dumps for a data part')
+            return json.dumps(data)
+        return self.last_dumps
 
     def get_msg_wrapper(self, real):
         def get_msg(_bytes):
@@ -177,7 +207,9 @@ class Recorder:
 
             @staticmethod
             def dumps(*a, **k):
-                return json.dumps(*a, **k)
+                r = json.dumps(*a, **k)
+                rec.last_dumps = r
+                return r
 
             @staticmethod
             def loads(s, *a, **k):
@@ -358,6 +390,22 @@ def _run_stream(chunks, others=()):
     return result
 
 
+def err_text_of(data_text):
+    """the JSON text of the message inside an error report `["<name>", <text>, {}]`, cut out of the text json.dumps
+    produced (so that it is the implementation's rendering, whatever escaping it uses)"""
+    try:
+        d = json.loads(data_text)
+        for name in (json.dumps(d[0]), json.dumps(d[0], ensure_ascii=False)):
+            pre, post = '[' + name + ', ', ', {}]'
+            if data_text.startswith(pre) and data_text.endswith(post) and isinstance(d[1], str) and d[2] == {}:
+                text = data_text[len(pre):-len(post)]
+                if json.loads(text) == d[1]:
+                    return text
+        return json.dumps(d[1])
+    except Exception:
+        return ''
+
+
 def summarize(r, conn='A'):
     """JSON-able observation of connection conn of a run"""
     rec = r['rec']
@@ -366,18 +414,24 @@ def summarize(r, conn='A'):
     lines = []
     for i in range(nlines):
         own = [s for s in sends if s['cur'] == conn and s['line'] == i]
+        # a reply that could not be encoded (the exception leaves send_reply and the request loop)
+        failed = [f for f in rec.failed if f['cur'] == conn and f['line'] == i and not f['in_handler']]
         hc = rec.hcalls.get((conn, i))
+        own_out = [s for s in own if not s['in_handler']]
+        reply = failed[0]['triple'] if failed else own_out[-1]['triple'] if own_out else None
         errtext = ''
-        if own:
-            t = own[-1]['triple']
-            if t and t[0].startswith('error_') and t[2] is not None:
-                try:
-                    d = json.loads(t[2])
-                    errtext = json.dumps(d[1])
-                except Exception:
-                    pass
+        if reply and reply[0].startswith('error_') and reply[2] is not None:
+            errtext = err_text_of(reply[2])
+        if hc and hc.get('ret') and reply and not reply[0].startswith('error_') and reply[2] is not None:
+            # oracle law: the text json.dumps produced for the reply data parses back to the value the handler returned
+            try:
+                if canon(json.loads(reply[2])) != canon(json.loads(hc['ret'][2])):
+                    rec.problems.append(f'line {i}: dumped reply data does not parse back to the returned value')
+            except Exception:
+                pass
         lines.append({'h': hc, 'sent_in_handler': [s['triple'] for s in own if s['in_handler']], 'err': errtext,
-                      'out': [s['bytes'] for s in own]})
+                      'out': [s['bytes'] for s in own], 'reply': reply,
+                      'unencodable': failed[0]['exc'] if failed else None})
     return {'out': [s['bytes'] for s in sends], 'nlines': nlines, 'lines': lines,
             'foreign': [s['bytes'] for s in sends if s['cur'] != conn]}
 
@@ -393,9 +447,16 @@ def run_case(case):
     iface = env['iface']
     if kind == 'encode':
         a, s, d = case['triple']
+        rec = Recorder(env)
+        saved = iface.json
+        iface.json = rec.json_shim()
         try:
-            r = iface.encode_msg_frame(a, s, d)
-            obs = {'out': hx(r), 'dumps': None if d is None else json.dumps(d)}
+            try:
+                r = iface.encode_msg_frame(a, s, d)
+            except Exception as e:
+                # the text json.dumps produced is kept: the model decides from it whether the frame is encodable
+                return {'exc': type(e).__name__, 'dumps': None if d is None else rec.last_dumps}
+            obs = {'out': hx(r), 'dumps': None if d is None else rec.last_dumps}
             try:
                 back = iface.decode_msg(r[:-1])
                 obs['back'] = [back[0], back[1], None if back[2] is None else canon(back[2])]
@@ -403,8 +464,8 @@ def run_case(case):
             except Exception as e:
                 obs['back_exc'] = type(e).__name__
             return obs
-        except Exception as e:
-            return {'exc': type(e).__name__}
+        finally:
+            iface.json = saved
     if kind == 'decode':
         rec = Recorder(env)
         saved = iface.json
@@ -810,18 +871,23 @@ def g_hres(ln):
         return f'(HSecop {h["exc"][1]}%nat)' if h['exc'][0] == 'secop' else 'HExc'
     sent = '[' + ';'.join(g_msg(t) for t in ln['sent_in_handler']) + ']'
     data = None if h['ret'] is None else h['ret'][2]
+    reply = ln.get('reply')
+    if h['ret'] is not None and reply and not reply[0].startswith('error_'):
+        data = reply[2]     # the text json.dumps produced inside encode_msg_frame for the returned value
     return f'(HOk {g_ostr(data)} {sent})'
 
 
 def encode(case, obs):
     k = case['kind']
     if k == 'threads':      # the interleaving is not an input of the model: compare the event frame only
-        return f'(CEncode ({g_str("update")}, {g_ostr("m:value")}, {g_ostr("[0, {}]")}) {g_bytes(b"update m:value [0, {}]" + bytes([10]))})'
+        return f'(CEncode ({g_str("update")}, {g_ostr("m:value")}, {g_ostr("[0, {}]")}) (Some {g_bytes(b"update m:value [0, {}]" + bytes([10]))}))'
     if k == 'encode':
-        if 'exc' in obs:
-            raise ValueError('encode_msg_frame raised ' + obs['exc'])
         a, s, d = case['triple']
-        return f'(CEncode ({g_str(a)}, {g_ostr(s)}, {g_ostr(obs["dumps"])}) {g_bytes(unhx(obs["out"]))})'
+        if 'exc' in obs:
+            if obs['exc'] != 'UnicodeEncodeError' or (d is not None and obs['dumps'] is None):
+                raise ValueError('encode_msg_frame raised ' + obs['exc'])
+            return f'(CEncode ({g_str(a)}, {g_ostr(s)}, {g_ostr(obs["dumps"])}) None)'
+        return f'(CEncode ({g_str(a)}, {g_ostr(s)}, {g_ostr(obs["dumps"])}) (Some {g_bytes(unhx(obs["out"]))}))'
     if k == 'decode':
         res = 'None' if obs['res'] is None else f'(Some {g_msg(obs["res"])})'
         return f'(CDecode {g_bytes(unhx(case["line"]))} {g_json(obs["json"])} {res})'
@@ -894,7 +960,36 @@ VALID = [
     b'update m:value [1,{}]', b'error_read x', b'describing', b'foo', b'foo bar [1, 2]', b'Read m:value', b'reply m:value',
     b'ping t\xc3\xa9st', b'ping \xe2\x80\xa8', b'ping \xc2\xa0', b'read m\xc3\xb6d:value', b'r\xc3\xa9ad m:value',
     b'change m:target 1e999', b'change m:target NaN', b'change m:target -Infinity', b'change m:_txt "a b  c"',
+    b'change m:_utxt "t\\u00e9xt"', b'change m:_st {"a": 2, "b": "s"}', b'change m:_st {"a": 2}', b'do m:_echo "hi"',
 ]
+# pure ASCII request lines whose JSON data holds \\uXXXX escapes: lone surrogates (json.loads accepts them), surrogate pairs
+# (= one non-BMP character), BMP characters; and the same characters as raw UTF-8 - as values of the UTF-8 string
+# parameter / struct member / command argument (echoed in the reply), as struct member names and in places named by the
+# error text, and raw in the specifier
+ESCAPES = [b'\\ud800', b'\\udbff', b'\\udc00', b'\\udfff', b'\\ud83d\\ude00', b'\\ude00\\ud83d', b'\\ud800\\ud800', b'\\ud7ff',
+           b'\\ue000', b'\\u00e9', b'\\u20ac', b'\\u2028', b'\\u0085', b'\\ufffd', b'\\uffff', b'\\u0000', b'\\u000a', b'\\uD83D',
+           b'\xc3\xa9', b'\xe2\x82\xac', b'\xf0\x9f\x98\x80', b'\xf4\x8f\xbf\xbf', b'\xef\xbf\xbd']
+UNI_TEMPLATES = [b'change m:_utxt "%s"', b'change m:_utxt "x%sy"', b'change m:_utxt "%s "', b'do m:_echo "%s"', b'do m:_echo " %s"',
+                 b'change m:_st {"a": 1, "b": "%s"}', b'change m:_st {"%s": 1}', b'change m:_st {"a": 1, "b": "", "k%s": 2}',
+                 b'change m:_st {"b": "%s"}', b'change m:_st {"a": "%s", "b": ""}', b'change m:_txt "%s"', b'change m:target "%s"',
+                 b'do m:_twice "%s"', b'ping tok "%s"', b'ping "%s"', b'logging m "%s"', b'foo bar ["%s"]', b'read m:value "%s"',
+                 b'change m:_utxt ["%s"]', b'change m:_utxt "a%sb"', b'describe "%s"', b'help x "%s"', b'change m:_utxt "%s',
+                 b'change m:_utxt "\\%s"']
+UNI_RAW_SPEC = [b'read m:%s', b'ping %s', b'change m:_utxt%s "x"', b'change %s:_utxt "x"', b'do m:_echo%s "x"', b'logging %s "debug"',
+                b'%s m:value', b'describe %s']
+
+
+def uni_line(rng):
+    e = rng.choice(ESCAPES)
+    if rng.random() < 0.3:
+        e += rng.choice(ESCAPES)
+    if rng.random() < 0.15 and not e.startswith(b'\\'):
+        return rng.choice(UNI_RAW_SPEC) % e
+    return rng.choice(UNI_TEMPLATES) % e
+
+
+UNI_FIXED = [b'change m:_utxt "x\\ud800y"', b'change m:_st {"\\ud800": 1}', b'do m:_echo "\\udfff"', b'change m:_utxt "\\ud83d\\ude00"',
+             b'change m:_st {"a": 1, "b": "\\u00e9\\ud800"}', b'read m:_utxt', b'read m:_st', b'change m:_utxt "\xf0\x9f\x98\x80"']
 BULKY = (b'describe', b'describe .', b'describe m', b'help', b'help x', b'help x 1', b'', b'activate')
 BYTES_OF_INTEREST = [0x00, 0x09, 0x0a, 0x0b, 0x0c, 0x0d, 0x1c, 0x1f, 0x20, 0x22, 0x5b, 0x5d, 0x7b, 0x7d, 0x3a, 0x5c, 0x7f, 0x80,
                      0x85, 0xa0, 0xbf, 0xc0, 0xc2, 0xc3, 0xa9, 0xe0, 0xe2, 0xed, 0xef, 0xf0, 0xf4, 0xf5, 0xff]
@@ -952,8 +1047,10 @@ def rand_stream(rng):
     lines = []
     for _ in range(n):
         ln = rng.choice(VALID)
-        if ln in BULKY and rng.random() < 0.8:
+        if ln in BULKY and rng.random() < 0.9:
             ln = rng.choice(VALID)
+        if rng.random() < 0.12:
+            ln = uni_line(rng)
         k = rng.random()
         if k < 0.55:
             ln = mutate(rng, ln)
@@ -1013,10 +1110,12 @@ def all_segmentations(stream):
 SHORT_STREAMS = [b'ping\n\xff\n', b' a {\nping\n', b'\n\r\n \n', b'a\nb c\n', b'\xc3\xa9 x {\n', b'_ident\n', b'ping x 1\n',
                  b'*IDN?\n\n', b'a b [1]\nc', b'\xe2\x80\xa8\n\n', b'help\r\n\xc3\n']
 JSON_VALUES = [None, True, 0, -1, 1.5, 'x', '', ' ', 'a b', '\u00e9', '\u00a0', [], [1, [2, {}]], {}, {'a': None, 'b': [1.0]},
-               1e300, 12345678901234567890, '"', '\\', ' lead', 'trail ', [[]], {'t': 1.0}, '\x00', '\ud800']
+               1e300, 12345678901234567890, '"', '\\', ' lead', 'trail ', [[]], {'t': 1.0}, '\x00', '\U0001f600', '\u20ac\u2028',
+               {'\u00e9': ['\U0010ffff']}, '\ud800', 'x\udfffy', {'\ud800': 1}, ['\ud83d\ude00'], '\ude00\ud83d']
+N_LONE = 5      # the last N_LONE values hold lone surrogates (no round trip demanded: they are no text)
 TOK_CHARS = 'abzAZ09_:.*?-+&,\u00e9\u20ac\U0001f600\x00\x7f\xad'
 WILD_CHARS = TOK_CHARS + (' \t\n\r\x0b\x0c\x1c\x1d\x1e\x1f\x85\xa0\u1680\u2000\u200a\u200b\u2028\u2029\u202f\u205f\u3000'
-                          '\ufeff\u180e\x1b\x84\x86\u2007\u2060')
+                          '\ufeff\u180e\x1b\x84\x86\u2007\u2060\ud800\udfff')
 
 
 def rand_token(rng, chars, lo=0, hi=6):
@@ -1030,7 +1129,7 @@ def codec_cases(rng, n):
         if r < 0.3:     # well-formed triple: round trip demanded
             a = rand_token(rng, TOK_CHARS, 1, 8)
             s = rand_token(rng, TOK_CHARS, 1, 8) if rng.random() < 0.7 else None
-            d = rng.choice(JSON_VALUES[:-1]) if rng.random() < 0.7 else None
+            d = rng.choice(JSON_VALUES[:-N_LONE]) if rng.random() < 0.7 else None
             if isinstance(d, float) and d != d:
                 d = None
             cases.append({'kind': 'encode', 'wf': True, 'triple': [a, s, d]})
@@ -1097,13 +1196,33 @@ def echo_cases(rng, n_lines, per_stream=16):
     return cases
 
 
+def unicode_cases(rng, n):
+    """streams in which every line carries escaped / raw non-ASCII text in its data or specifier, between two pings (a
+    handler that dies on such a line leaves the later ones unanswered); some after `activate` so that the value also
+    travels in update events"""
+    cases = []
+    fixed = list(UNI_FIXED)
+    for k in range(n):
+        lines = [b'ping a']
+        if rng.random() < 0.25:
+            lines.append(rng.choice([b'activate', b'activate m', b'activate m:utxt']))
+        for _ in range(rng.choice([1, 1, 2, 3])):
+            lines.append(fixed.pop() if fixed else uni_line(rng))
+        if rng.random() < 0.5:
+            lines.append(rng.choice([b'read m:_utxt', b'read m:_st', b'ping b', b'describe m:_utxt']))
+        stream = b'\n'.join(lines) + b'\n'
+        cases.append(stream_case(rng, stream, None if rng.random() < 0.5 else [stream]))
+    return cases
+
+
 def gen_cases(seed, tier):
     rng = random.Random(seed * 1000003 + 7)
-    n_stream = {'quick': 2600, 'thorough': 14000, 'search': 30000}[tier]
+    n_stream = {'quick': 2000, 'thorough': 14000, 'search': 30000}[tier]
     n_codec = {'quick': 1400, 'thorough': 6000, 'search': 5000}[tier]
     cases = [stream_case(rng) for _ in range(n_stream)]
     cases.extend(codec_cases(rng, n_codec))
     cases.extend(echo_cases(rng, {'quick': 480}.get(tier, 10000)))
+    cases.extend(unicode_cases(rng, {'quick': 260, 'thorough': 2000, 'search': 5000}[tier]))
     for k in range({'quick': 12}.get(tier, 60)):
         cases.append({'kind': 'threads', 'chunks': [hx(b'help\nping a\n'), hx(b'\nping b\nhelp\n')][:1 + k % 2],
                       'pause': [0.0003, 0.001, 0.0001][k % 3], 'n': k})
